@@ -73,8 +73,8 @@ impl Monitor for C06 {
     }
     fn cases(&self, tier: Tier) -> u64 {
         match tier {
-            Tier::Quick => 12_000,
-            Tier::Thorough => 400_000,
+            Tier::Quick => 100_000,
+            Tier::Thorough => 2_000_000,
         }
     }
     fn required_counters(&self) -> Vec<&'static str> {
@@ -128,8 +128,11 @@ impl Monitor for C06 {
             hooks::set_item_observer(None);
             match got {
                 Err(c) => {
-                    rep.count("library_panicked_or_out_of_fuel (decided by C20)", 1);
-                    let _ = c;
+                    // the evaluator has a defined answer for this input, the library has none
+                    rep.violation(
+                        format!("C06 analysis={} kind={}-where-evaluation-is-defined class={}", p.name(), c.kind, c.class()),
+                        jobj! {"problem" => q.to_json(), "caught" => c.to_json(), "exhaustive_evaluation" => expected.to_json(), "needed_limit" => o.needed_limit},
+                    );
                 }
                 Ok(got) => {
                     rep.count("results_compared", 1);
